@@ -18,6 +18,7 @@ DECIDED = [
     "C06.4 raise table of TestNode.validate (12 rows) and the quantities it compares",
     "C06.5 shared root: every node without setup nodes descends from the unique, registered, never-run root",
     "C06.6 clone sources / flat nodes are never run, cleaned or rerun (first rows of the three decision tables)",
+    "C06.10 cloning of multi-producer branches: one clone per producer built from its own clone source, dependants re-queued against that source, at any depth",
     "C06.7 get_dependency accepts a setup node only for the same object (identity or long suffix) and matching name/state",
 ]
 NOT_DECIDED = ["acyclicity", "reachability of every node", "exactly one producer per required state", "uniqueness of identities for all inputs"]
@@ -41,6 +42,7 @@ def run(ctx):
     ctx.call(GR.dependency_lookup, "7")
     ctx.call(GR.identity_forms, "8")
     ctx.call(GR.node_objects, "9")
+    ctx.call(GR.cloning, "10")
 
 
 NODE = "cartgraph/node.py"
@@ -56,6 +58,8 @@ MUTANTS = [
     ("validate-one-direction", NODE, "        if len(attr_vms - param_vms) > 0:", "        if len(attr_vms - param_vms) > 1:", "4"),
     ("root-runnable", G, "        root_for_all.should_run = lambda x: False\n", "", "5"),
     ("dependency-by-short-suffix", NODE, "node_object_suffices = [t.long_suffix for t in test_node.objects]", "node_object_suffices = [t.suffix for t in test_node.objects]", "7"),
+    ("clone-objects-from-branch-root", G, "child.set_objects_from_net(clone_source.objects[0])", "child.set_objects_from_net(test_node.objects[0])", "10c"),
+    ("grandchildren-replace-branch-root", G, "to_clone.append((grandchild, clones, clone_source))", "to_clone.append((grandchild, clones, test_node))", "10g"),
     ("P-edge-helper-var", NODE, "        self._setup_nodes[test_node] = self._setup_nodes.get(test_node, set()) | {\n            test_object\n        }\n",
      "        logging.debug('descending')\n        self._setup_nodes[test_node] = self._setup_nodes.get(test_node, set()) | {\n            test_object\n        }\n", None),
 ]
